@@ -1,6 +1,6 @@
 SPECIFICATION ISpec
 CONSTANTS
-  Alphabet = {"a", ".", " "}
+  Alphabet = {"a", ".", "p"}
   MaxDepthI = 3
   MaxCompI = 2
   BufSizes = {1, 4, 8}
